@@ -335,7 +335,7 @@ pub fn build() -> Property {
                (expected page counter, reset on stop, orbit must change after stop, orbit/trigger/FEE constancy on page != 0; set-valued after a stop bit > 1 where the document is silent). \
                (1) exhaustive: every one of the 512 header bits flipped at the first / second / a later packet of a conforming HBF sequence, with and without ITS specialisation; \
                (2) every field at its boundary set (BC DEA/DEB/DEC, stave 46/47/48, layer 6/7, stop 0/1/2, format 2/3, DW 1/2, each spare trigger bit, detector bits 11/12/23/24, version +-1, reserved words) at four positions; \
-               (3) proptest random walks of 2..5000 RDHs starting at an HBF start with mutation rates 0..50 %; (4) walks through the CLI (`check sanity`, `check all`, `check sanity its`; file and stdin) reading E10/E11 and their offsets. \
+               (3) proptest random walks of 2..5000 RDHs starting at an HBF start with mutation rates 0..50 %; (4) walks through the CLI (`check sanity`, `check all`, `check sanity its`; file and stdin ; a third with a custom-checks file that configures the first RDH's own version) reading E10/E11 and their offsets. \
                Oracle: E10 at RDH i <=> reference sanity fails; E11 at RDH i <=> automaton (modulo `unspecified`); both at RDH i's offset; E11 never in sanity modes. Non-trivial walk = both verdicts occur.",
         assumptions: vec![
             "BC bound is > 0xDEB (the orbit has 3564 bunch crossings; the property's boundary set says the same; the document's `<` is read as `<=`)".into(),
